@@ -1,1 +1,65 @@
-/-! C01 — property theorems (stub; no obligations yet) -/
+import Ypv.Lemmas.Eval
+/-!
+# C01 — query results equal the documented segment semantics
+-/
+namespace Ypv.C01
+open Ypv Ypv.Eval Ypv.Spec Gen
+
+variable (mt : Matcher) (dsc : Desc)
+
+/-- **The evaluator computes the specification.**  For every matcher, every reading of search
+attributes, every segment list and every start (a document node with any coordinates, or a virtual
+slice list), `_get_required_nodes` (with its probing of following segments, its early `break`s, its
+`traverse_lists` flag) yields exactly what the compositional `Spec.select` yields: the same nodes with
+the same coordinates, in the same order, with the same multiplicity, followed by the same exception
+(if any). -/
+theorem required_eq_select : ∀ (segs : List ESeg) (r : Res),
+    required mt dsc segs r = select mt dsc segs r := by
+  intro segs
+  induction segs with
+  | nil => intro r; simp [required, select]
+  | cons s rest ih =>
+    intro r
+    have ihf : required mt dsc rest = select mt dsc rest := funext ih
+    cases r with
+    | virt items => simp [required, select, stepRes, ihf]
+    | real nc =>
+      obtain ⟨n, c⟩ := nc
+      by_cases hm : s = .matchAll
+      · subst hm
+        cases rest with
+        | nil => simp [required, select, stepRes, stepSeg, reals]
+        | cons nxt rest' =>
+          simp only [required, select, stepRes, stepSeg, reals, bind_map, bind_ofList]
+          rw [filterFirst_bind]
+          · rw [← ihf, bindList_map]
+            apply bindList_congr
+            intro x
+            simp [required, stepRes]
+          · intro x e hx
+            simp [hx]
+      · by_cases ht : s = .traverse
+        · subst ht
+          cases rest with
+          | nil => simp [required, select, stepRes, stepSeg, leaves, walk_eq]
+          | cons nxt rest' =>
+            simp only [required, select, stepRes, stepSeg, bind_map, walk_eq, bindList_bind]
+            by_cases hr : nxt.isTraverse = true
+            · obtain ⟨t, ht⟩ := preorder_head n c
+              simp [hr, ht, recursionGuard]
+            · simp only [hr, recursionGuard, Bool.and_false, Bool.false_eq_true, if_false]
+              apply bindList_congr
+              intro x
+              rw [stepSeg_tl_false]
+              by_cases hd : direct nxt x.1 = true
+              · simp only [hd, if_true]
+                rw [← ihf]
+                have : required mt dsc (nxt :: rest') (Res.real x)
+                    = (stepSeg mt dsc nxt rest' true x.1 x.2).bind (required mt dsc rest') := by
+                  simp [required, stepRes]
+                rw [this]
+                exact ifAny_bind _ _ _ (fun e he => by simp [he])
+              · simp [hd]
+        · simp only [required, select, stepRes]
+          rw [stepSeg_children mt dsc s rest n c hm ht, ihf]
+          cases s <;> simp_all [select]
